@@ -145,7 +145,7 @@ def asUnytArray [UnitClose K] : ArgIn K → Except Err (Qty K)
 def bareAtolUnit (fixed : Bool) (act des0 : TUnit K) : TUnit K :=
   if fixed then des0 else act
 
-/-- the unit `atol` carries when it is converted to `actual`'s unit -/
+/-- the unit `atol` is read in (used by the theorems; the code path is `atolInActualUnit`) -/
 def atolUnit (fixed : Bool) (act des0 : TUnit K) : Tol K → TUnit K
   | .bare _ => bareAtolUnit fixed act des0
   | .qty _ u => u
@@ -155,20 +155,29 @@ def rtolDim : Tol K → Dim
   | .bare _ => Dim.one
   | .qty _ u => u.dim
 
+/-- the number `atol` becomes in `actual`'s unit; `none` when the conversion is refused.
+    Pinned commit, bare: `unyt_quantity(atol, des.units).in_units(act.units)` with `des` already in
+    `actual`'s unit (an identity conversion).  Repaired code, bare: a *difference* in `desired`'s
+    own unit, i.e. scaled by `desired_units.base_value / act.units.base_value` (no offset — the
+    repair that keeps unyt's own `test_degC_with_SIprefixes` passing).  Quantity: `in_units`. -/
+def atolInActualUnit (fixed : Bool) (act des0 : TUnit K) : Tol K → Option K
+  | .bare x => if fixed then some (x * (des0.scale / act.scale)) else some (convVal act act x)
+  | .qty x u => if u.dim != act.dim then none else some (convVal u act x)
+
 /-- `allclose_units(actual, desired, rtol, atol)` on two `unyt_array`s, in the order the code
     proceeds: convert `desired` to `actual`'s unit (failure → `False`); `rtol` must be
-    dimensionless (else `RuntimeError`) and is then used by its bare value; a bare `atol` gets a
-    unit (`bareAtolUnit`); `atol` is converted to `actual`'s unit (failure → `False`);
-    `numpy.allclose` on the stripped numbers -/
+    dimensionless (else `RuntimeError`) and is then used by its bare value; `atol` is brought to
+    `actual`'s unit (`atolInActualUnit`, failure → `False`); `numpy.allclose` on the stripped
+    numbers -/
 def allcloseQ (fixed : Bool) (act des0 : Qty K) (rtol atol : Tol K) : Except Err Bool :=
   match inUnits des0.unit act.unit des0.vals with
   | .error _ => .ok false
   | .ok des =>
     if rtolDim rtol != Dim.one then .error .RuntimeError
     else
-      let au := atolUnit fixed act.unit des0.unit atol
-      if au.dim != act.unit.dim then .ok false
-      else npAllclose rtol.value (convVal au act.unit atol.value) act.vals des
+      match atolInActualUnit fixed act.unit des0.unit atol with
+      | none => .ok false
+      | some av => npAllclose rtol.value av act.vals des
 
 /-- `q.in_units(u)` for a commensurable `u`: the same quantity written in another unit -/
 def Qty.reexpress (q : Qty K) (u : TUnit K) : Qty K :=
